@@ -17,7 +17,7 @@ AXES = {
     "weights": ["none", "ds_all", "ds_first", "ds_last", "model_global", "model_both"],
     "dscale": ["none", "second", "all"],
     "multimc": ["single", "two", "two_scaled"],
-    "constraints": ["none", "zero_all", "zero_iv", "only_iv"],
+    "constraints": ["none", "zero_all", "zero_iv", "only_iv", "zero_src_iv"],
     "relation": ["none", "iv", "all"],
     "penalty": ["none", "yes"],
     "residual": ["variable_projection", "non_negative_least_squares"],
@@ -39,7 +39,7 @@ GLOBAL_AXES = {
     "overlap": [[1, 2, 3], [2, 3, 4], [3, 4, 5], [1, 3, 5]],
     "disjoint": [[1, 2, 3], [4, 5, 6], [7, 8], [9, 10, 11]],
     "near": [[1, 2, 3], [1.4, 2.4, 3.7], [0.9, 2.0, 4.2], [1, 3, 5]],
-    "descending": [[3, 2, 1], [4, 3, 2], [5, 3, 4], [5, 3, 1]],  # global axes need not be sorted
+    "descending": [[3, 1, 2], [4, 3, 2], [5, 3, 4], [5, 3, 1]],  # global axes need not be sorted (first: a 3-cycle)
     "square": [[1, 2, 3, 4, 5, 6], [2, 3, 4, 5, 6], [1, 2, 3, 4, 5, 6, 7], [1, 2, 3, 4, 5, 6, 7, 8]],  # n_model == n_global
 }
 N_MODEL = [6, 5, 7, 8]
@@ -96,6 +96,8 @@ def make_spec(o, variant=1, seed=0):
         spec["constraints"].append({"type": "zero", "target": "s1", "interval": None})
     elif o["constraints"] == "zero_iv":
         spec["constraints"].append({"type": "zero", "target": "s1", "interval": [2, 3]})
+    elif o["constraints"] == "zero_src_iv":  # the source of the relation (and of the penalty target) is itself constrained
+        spec["constraints"].append({"type": "zero", "target": "s2", "interval": [2, 3]})
     elif o["constraints"] == "only_iv":
         spec["constraints"].append({"type": "only", "target": "s3", "interval": [2, 4]})
     if o["relation"] == "iv":
